@@ -5,7 +5,8 @@
 #include <new>
 using namespace tbb;
 extern "C" void vp_may_throw_copy(int v);      // harness: may throw (symbolic fault position)
-struct Elem {
+#ifndef COPYONLY
+struct Elem {                                  // copy may throw, moves are noexcept
   int v;
   Elem(int x = 0) noexcept : v(x) {}
   Elem(const Elem& o) : v(o.v) { vp_may_throw_copy(o.v); }
@@ -14,6 +15,15 @@ struct Elem {
   Elem& operator=(Elem&& o) noexcept { v = o.v; return *this; }
   bool operator<(const Elem& o) const noexcept { return v < o.v; }
 };
+#else
+struct Elem {                                  // copy-only type (no move members, like MyThrowingType of the repo test):
+  int v;                                       // copy CONSTRUCTION may throw, assignment does not
+  Elem(int x = 0) noexcept : v(x) {}
+  Elem(const Elem& o) : v(o.v) { vp_may_throw_copy(o.v); }
+  Elem& operator=(const Elem& o) noexcept { v = o.v; return *this; }
+  bool operator<(const Elem& o) const noexcept { return v < o.v; }
+};
+#endif
 typedef concurrent_priority_queue<Elem> cpq_t;
 typedef cpq_t::cpq_operation op_t;
 extern "C" {
@@ -33,4 +43,6 @@ unsigned long vp_q_mysize(cpq_t* q) { return q->my_size.load(std::memory_order_r
 unsigned long vp_q_dsize(cpq_t* q) { return q->data.size(); }
 unsigned long vp_q_cap(cpq_t* q) { return q->data.capacity(); }
 int vp_q_at(cpq_t* q, unsigned long i) { return q->data[i].v; }
+unsigned long vp_q_busy(cpq_t* q) { return q->my_aggregator.handler_busy.load(std::memory_order_relaxed); }
+unsigned long vp_q_pending(cpq_t* q) { return (unsigned long)q->my_aggregator.pending_operations.load(std::memory_order_relaxed); }
 }
